@@ -248,7 +248,7 @@ def run_flow(c):
 
 
 # -----------------------------------------------------------------------------------------------------------------------
-def make_model():
+def make_model(prior="uniform"):
     from nessai.model import Model
 
     class G(Model):
@@ -257,7 +257,18 @@ def make_model():
             self.bounds = {"x": [-4.0, 6.0], "y": [-3.0, 3.0]}
 
         def log_prior(self, x):
-            return np.log(self.in_bounds(x), dtype=float) - np.log(60.0)
+            with np.errstate(all="ignore"):
+                lp = np.log(self.in_bounds(x), dtype=float) - np.log(60.0)
+                if prior == "band":            # an excluded band inside the bounds (constraint prior)
+                    lp = lp + np.log(~((x["x"] > 0.0) & (x["x"] < 2.0)), dtype=float)
+                elif prior == "hole":          # an excluded disc inside the bounds
+                    lp = lp + np.log((x["x"] - 1.0) ** 2 + x["y"] ** 2 > 1.5, dtype=float)
+                elif prior == "checker":       # many small excluded cells: rejected points scattered through every batch
+                    lp = lp + np.log((np.floor(2 * x["x"]) + np.floor(2 * x["y"])) % 3 != 0, dtype=float)
+                elif prior == "nan-inf":       # malformed: NaN in one region, +inf in another (draw must drop both)
+                    lp = np.where(x["y"] > 2.0, np.nan, lp)
+                    lp = np.where(x["y"] < -2.0, np.inf, lp)
+            return lp
 
         def log_likelihood(self, x):
             return -0.5 * ((x["x"] - 1.0) ** 2 / 0.5 + x["y"] ** 2)
@@ -385,7 +396,7 @@ def run_ins(c):
     INS.add_fields()
     d64 = torch.get_default_dtype() == torch.float64
     tol_x, tol_lp = tolerances(d64)
-    model = make_model()
+    model = make_model(c.get("prior", "uniform"))
     tmp = tempfile.mkdtemp(prefix="c08i_", dir=os.getcwd())
     out = {"glue": [], "direct": []}
     p = ImportanceFlowProposal(model, tmp, flow_config=dict(c["flow_config"]),
@@ -416,6 +427,70 @@ def run_ins(c):
            e <= tol_lp * (1 + float(np.abs(log_q2).max())), f"max error {e:.3g}")
     direct("logQ attached in draw equals the recomputed meta-proposal", eQ <= tol_lp * (1 + float(np.abs(logQ2).max())),
            f"max error {eQ:.3g}")
+    # ---- draw(n) for several n on a prior with excluded regions: every returned row against an INDEPENDENT forward
+    # evaluation of the returned points (chunked), and the recorded batches for the alignment check inside Coq -----------
+    from scipy.special import logsumexp as _lse
+    out["aligned"] = []
+    real_clq = p.compute_log_Q
+    for nd in c.get("draw_ns", []):
+        recs = []
+
+        def clq(x_prime, log_j=None, _r=real_clq):
+            r = _r(x_prime, log_j=log_j)
+            recs.append((np.array(x_prime, dtype=float).copy(), np.array(r[0], dtype=float).copy(),
+                         np.array(r[1], dtype=float).copy()))
+            return r
+
+        p.compute_log_Q = clq
+        try:
+            with np.errstate(all="ignore"):
+                sm, lqr = p.draw(nd)
+        finally:
+            del p.compute_log_Q
+        direct("draw returns as many density rows as samples", len(sm) == len(lqr) == nd, f"n={nd}: {len(sm)} samples, {len(lqr)} rows")
+        # independent forward evaluation of the returned points, in chunks
+        rows_f, logQ_f = [], []
+        for i0 in range(0, len(sm), 37):
+            xp_, lj_ = p.rescale(sm[i0:i0 + 37])
+            r_ = np.zeros((len(xp_), p.n_proposals))
+            r_[:, 1:] = p.flow.log_prob_all(xp_) + lj_[:, np.newaxis]
+            rows_f.append(r_)
+            logQ_f.append(_lse(r_, b=p.weights_array, axis=1))
+        rows_f, logQ_f = np.concatenate(rows_f), np.concatenate(logQ_f)
+        k = min(len(lqr), len(rows_f))
+        er = float(np.abs(lqr[:k] - rows_f[:k]).max()) if k else 0.0
+        eq = float(np.abs(sm["logQ"][:k] - logQ_f[:k]).max()) if k else 0.0
+        eself = float(np.abs(sm["logQ"][:k] - _lse(lqr[:k], b=p.weights_array, axis=1)).max()) if k else 0.0
+        direct("every log_q row returned by draw is the density of the sample it is returned with, passed forwards",
+               er <= tol_lp * (1 + float(np.abs(rows_f).max() if k else 0.0)),
+               f"n={nd}, prior {c.get('prior')}: max |row - forward row| = {er:.3g} (first bad row "
+               f"{int(np.argmax(np.abs(lqr[:k] - rows_f[:k]).max(axis=1))) if k else -1})")
+        direct("the logQ field of a drawn sample is the meta-proposal of its forward density row",
+               eq <= tol_lp * (1 + float(np.abs(logQ_f).max() if k else 0.0)), f"n={nd}: max error {eq:.3g}")
+        direct("the logQ field of a drawn sample agrees with the log_q row returned with it",
+               eself <= 1e-9 * (1 + float(np.abs(logQ_f).max() if k else 0.0)), f"n={nd}: max error {eself:.3g}")
+        # recorded batches -> (mask, candidate ids, row ids); returned samples / rows -> ids by exact equality
+        batches, cand_id, row_id, gid = [], {}, {}, 0
+        for xp_b, logQ_b, lq_b in recs:
+            with np.errstate(all="ignore"):
+                xb_, _ = p.inverse_rescale(xp_b.copy())
+                lp_b = model.log_prior(model.from_unit_hypercube(xb_))
+                lu_b = model.log_prior_unit_hypercube(xb_)
+                mask = (np.isfinite(lp_b) & ~np.isposinf(lu_b - logQ_b) & ~np.isnan(lq_b).all(axis=1)
+                        & ~np.isposinf(lq_b).all(axis=1))
+            ids = list(range(gid, gid + len(xp_b)))
+            for i, g_ in enumerate(ids):
+                cand_id[tuple(float(xb_[nm][i]) for nm in model.names)] = g_
+                row_id.setdefault(tuple(float(v) for v in lq_b[i]), set()).add(g_)   # float32 densities can collide
+            batches.append([[bool(m) for m in mask], ids, ids])
+            gid += len(xp_b)
+        obs = []
+        for i in range(min(len(sm), len(lqr))):
+            ci = cand_id.get(tuple(float(sm[nm][i]) for nm in model.names), -1)
+            rset = row_id.get(tuple(float(v) for v in lqr[i]), set())
+            obs.append([ci, ci if ci in rset else (min(rset) if rset else -1)])
+        out["aligned"].append({"n": nd, "batches": batches, "obs": obs,
+                               "rejected_by_mask": int(sum(1 for b in batches for m in b[0] if not m))})
     # glue: compute_log_Q columns = log_prob_i + log_j
     xpr, lj = p.rescale(samples)
     lps = p.flow.log_prob_all(xpr)
